@@ -733,7 +733,11 @@ func checkRoundTripLookups(sc *bw.Scenario, w *world, cl *closure, b *sourcebund
 				// of the bundle, not of the call (each call iterates the package table afresh)
 				for i := 0; i < 8; i++ {
 					if again, err := b.SourceForLocalPath(lp); err != nil || again.String() != src.String() {
-						out.Violate(prop, "reverse-lookup", "alias-unstable", fmt.Sprintf("path %s translates to %s in one call and to %v (%v) in another on the same bundle", simkit.CanonString(lp), src, again, err))
+						// (not a matter of C18, whose round trip holds for either alias: it is the
+						// "same answer to every lookup" of C09 and the "function of its inputs" of C13)
+						for _, pr := range []string{"C09", "C13"} {
+							out.Violate(pr, "reverse-lookup", "alias-unstable", fmt.Sprintf("path %s translates to %s in one call and to %v (%v) in another on the same bundle", simkit.CanonString(lp), src, again, err))
+						}
 						break
 					}
 				}
